@@ -347,7 +347,7 @@ Proof.
       apply wr_inv in W. destruct W as (Hr & L & R & _). cbn [npost]. rewrite Hrc.
       repeat split; try lia; try discriminate.
       intros _ b Hb Hm. inversion Hb; subst b. exists (base + Z.min nl nmax - 1). split; [lia|exact R].
-    + cbn [npost]. rewrite Hrc. repeat split; try lia; try discriminate. intros _ b _ Hm. lia.
+    + lia.
   - cbn [npost]. rewrite Hrc. repeat split; try lia. intros _ b Hb. discriminate.
 Qed.
 
@@ -363,7 +363,7 @@ Proof.
   induction f as [|f IH]; intros i tgt name nlen nmax Hi Hf Hf1 Hn Hok; [lia|].
   cbn [name_loop].
   assert (Ret0 : forall t, zlen t = zlen tgt -> (name = None -> t = tgt) -> npost blen off tgt name nmax (NRet 0 t)).
-  { intros t Ht Hnone. cbn [npost]. repeat split; auto. intros X; congruence. }
+  { intros t Ht Hnone. cbn [npost]. repeat split; auto. try (intros X; congruence). }
   destruct (i >=? blen) eqn:E1; [apply Ret0; auto|].
   destruct (rd_in buf i) as [ll Hll]; [lia|]. rewrite Hll.
   assert (Hllb := rd_byte _ _ _ HB Hll).
@@ -410,7 +410,7 @@ Proof.
         destruct (rec p tA None (if 0 >? nlen then 0 - nlen else 0)) as [rc tB| |]; cbn [npost] in R; try tauto.
         destruct R as (R1 & R2 & R3 & R4). specialize (R3 eq_refl). subst tB.
         destruct (rc =? 0) eqn:E9.
-        { cbn [npost]. repeat split; auto; try lia; try discriminate. intros X; congruence. }
+        { cbn [npost]. repeat split; auto; try lia; try discriminate; try (intros X; congruence). }
         cbn [npost]. rewrite Hrc. repeat split; auto; try lia; try discriminate.
         intros _ b Hb Hm. inversion Hb; subst b. exists (base + nmax - 1). split; [lia|exact RA].
       * set (smax := if nmax >? nlen then nmax - nlen else 0).
@@ -422,7 +422,7 @@ Proof.
         clear R. destruct (rec p tgt (Some (base + nlen)) smax) as [rc tB| |]; cbn [npost] in R'; try tauto.
         destruct R' as (R1 & R2 & R3 & R4).
         destruct (rc =? 0) eqn:E9.
-        { cbn [npost]. repeat split; auto; try lia; try discriminate. intros X; congruence. }
+        { cbn [npost]. repeat split; auto; try lia; try discriminate; try (intros X; congruence). }
         assert (Hnul : 0 < nmax -> exists k, base + nlen <= k < base + nmax /\ rd tB k = Some 0).
         { intros Hm. destruct (R4 ltac:(lia) (base + nlen) eq_refl ltac:(lia)) as (k & Hk & Rk).
           exists k. split; [lia|exact Rk]. }
